@@ -140,7 +140,7 @@ def run(tier, seed, replay):
     # ---- run-time half: instance identity over histories of Get / GetInContext (same context, different contexts, no context)
     from . import rtcommon
     rs, hs, gs = rtcommon.gen_cases(seed, "c05rt", 30 if tier == "quick" else 500, weights={"scope": 0.9, "todo": 0.0, "failing": 0.0, "decorators": 0.3},
-                                    hist_len=14, kinds=["get", "get", "getctx", "getctx", "getctx", "tagged", "taggedctx"])
+                                    hist_len=14, kinds=["get", "get", "getctx", "getctx", "getctx", "tagged", "taggedctx", "newctx"])
     robs, rl, ml, acc = rtcommon.run_histories(out, tooldir, env, rs, hs, "C05 instance identity", "C05")
     import re as _re
     ident = {"histories": len(acc), "shared_checked": 0, "nonshared_checked": 0, "contextual_checked": 0}
